@@ -1132,3 +1132,30 @@ def vec_len_ub(prog, body, local, use_bb):
 def cnorm_(t):
     from .core import cnorm
     return cnorm(t)
+
+
+# ---------------------------------------------------------------------------------------------------------------------
+# operand "leaves": what a site's operands are computed from, independently of how the expression is written
+
+PURE_METHODS = {'saturating_sub', 'saturating_add', 'saturating_mul', 'checked_sub', 'checked_add', 'checked_mul', 'checked_div', 'wrapping_sub', 'wrapping_add',
+                'min', 'max', 'try_from', 'try_into', 'from', 'into', 'map_err', 'unwrap_or', 'unwrap_or_default', 'unwrap_or_else', 'ok_or', 'ok_or_else', 'branch',
+                'from_residual', 'clone', 'deref', 'deref_mut', 'as_ref', 'as_mut', 'map', 'map_or', 'map_or_else', 'and_then', 'ok', 'unwrap', 'expect', 'abs_diff', 'pow',
+                'is_some', 'is_none', 'is_ok', 'is_err', 'borrow', 'borrow_mut', 'copied', 'cloned'}
+
+
+def operand_leaves(body, op):
+    from .core import origins
+    if op.place is None:
+        k = op.k or {}
+        return ('const', k.get('def') or k.get('txt', '?'))
+    o = origins(body, [op.place[0]], through_calls=True)
+    calls = sorted({body.blocks[c].term.cmethod or cnorm_(body.blocks[c].term) for c in o.calls} - PURE_METHODS)
+    fields = sorted({'.'.join(str(x) for x in f) for f in o.fields if f and not re.match(r'^_\d+$', str(f[0]))})
+    params = sorted(body.lname(p) for p in o.params)
+    named = sorted({(c.get('def') or '') for c in o.consts if c.get('def')})
+    return ('val', tuple(fields), tuple(params), tuple(calls), tuple(named))
+
+
+def site_leaves(body, site):
+    ops = site.ops if site.ops else (site.term.args if site.term is not None and site.term.kind == 'call' else [])
+    return [site.kind] + [list(operand_leaves(body, o)) for o in ops]
